@@ -73,8 +73,30 @@ CTYPES = [
     ("image/png", "other"),
     ("garbage", "unparseable"),
 ]
-# charset parameter forms (None = no parameter)
-CHARSETS = [None, "utf-8", "latin-1", "ascii", "utf-16", "utf-32", "gb2312", "bogus", "", '"utf-8"']
+# parameter part of the Content-Type value (None = no parameter): every charset value class with the usual
+# lower-case parameter name, then the other spellings a charset parameter can have on the wire - parameter names
+# are case-insensitive (RFC 9110 s5.6.6), values may be quoted, a parameter may be repeated
+PARAMS = [
+    None, "charset=utf-8", "charset=latin-1", "charset=ascii", "charset=utf-16", "charset=utf-32", "charset=gb2312",
+    "charset=bogus", "charset=", 'charset="utf-8"',
+    "Charset=utf-8", "Charset=latin-1", "CHARSET=ascii", 'Charset="latin-1"',
+    "charset=latin-1; charset=utf-8", "charset=utf-8; charset=latin-1",
+]
+
+
+def charset_params(params):
+    """independent reading of the charset parameters in a parameter list: [(name as spelled, unquoted value)]"""
+    out = []
+    for part in (params or "").split(";"):
+        if "=" not in part:
+            continue
+        k, v = part.split("=", 1)
+        if k.strip().lower() == "charset":
+            v = v.strip()
+            if len(v) >= 2 and v[0] == v[-1] == '"':
+                v = v[1:-1]
+            out.append((k.strip(), v))
+    return out
 
 BOM_LOOKALIKES = ("ÿþ", "þÿ", "ï»¿", "\x00\x00þÿ")
 
@@ -98,7 +120,7 @@ def gen_cases(maxtok, variants):
             ntok["".join(tup)] = n
     for s in strings(maxtok):
         for ct, _ in CTYPES:
-            for cs in CHARSETS:
+            for cs in PARAMS:
                 if ct is None and cs is not None:
                     continue
                 for kind, ce, vmax in variants:
@@ -136,7 +158,16 @@ def features(s, ct, cs, ce, body):
     """trigger classes of a case; `decl`, `surrogate`, `charset`, `ct`, `ce` name the grammar alternatives chosen,
     `body_bom` is read off the body the assignment produced"""
     fam = dict(CTYPES)[ct]
-    no_header_charset = cs in (None, "")
+    cps = charset_params(cs)
+    if not cps:
+        spelling, label = "none", "none"
+    else:
+        spelling = "duplicate" if len(cps) > 1 else ("lower" if cps[0][0] == "charset" else "mixed-case")
+        label = "+".join(v or "empty" for _, v in cps)
+        if cs.count('"'):
+            label = '"%s"' % label
+    # an in-body declaration can only matter when no parameter spelled exactly `charset` carries a value
+    no_header_charset = not any(k == "charset" and v for k, v in cps)
     decl = "none"
     if no_header_charset:
         if fam == "html" and META_DECL in s:
@@ -153,7 +184,8 @@ def features(s, ct, cs, ce, body):
         lead = "none"
     return {
         "ct": fam,
-        "charset": "none" if cs is None else (cs or "empty"),
+        "charset": label,
+        "charset_param": spelling,
         "decl": decl,
         "text_lead": lead,
         "body_bom": body_bom(body),
@@ -162,30 +194,25 @@ def features(s, ct, cs, ce, body):
     }
 
 
-def declared_charset(header):
-    """independent reading of the charset parameter of a Content-Type value (RFC 9110 s8.3.1: parameter names are
-    case-insensitive, the value may be a quoted-string)"""
+def declared_charsets(header):
+    """independent reading of the charset parameter(s) of a Content-Type value (parameter names are
+    case-insensitive, the value may be a quoted-string): the distinct non-empty labels, in order"""
     if header is None:
-        return None
+        return []
     media = header.split(";")[0].strip()
     if media.count("/") != 1 or not all(media.split("/")):
-        return None  # not a media type: its parameters declare nothing
-    for part in header.split(";")[1:]:
-        if "=" not in part:
-            continue
-        k, v = part.split("=", 1)
-        if k.strip().lower() == "charset":
-            v = v.strip()
-            if len(v) >= 2 and v[0] == v[-1] == '"':
-                v = v[1:-1]
-            return v
-    return None
+        return []  # not a media type: its parameters declare nothing
+    out = []
+    for _, v in charset_params(header.split(";", 1)[1] if ";" in header else ""):
+        if v and v.lower() not in [x.lower() for x in out]:
+            out.append(v)
+    return out
 
 
 def make_message(kind, ct, cs, ce):
     hdrs = []
     if ct is not None:
-        val = ct if cs is None else "%s; charset=%s" % (ct, cs)
+        val = ct if cs is None else "%s; %s" % (ct, cs)
         hdrs.append((b"content-type", val.encode()))
     if ce:
         hdrs.append((b"content-encoding", ce.encode()))
@@ -254,21 +281,24 @@ def one(case, t: Tally, sample=False, verbose=False):
         t.bad("text_roundtrip", feats, case, show(s),
               {"read_back": show(got) if err is None else err, "content_type_after": hdr_after, "raw": m.raw_content})
     # --- clause charset_updated_when_needed: the charset declared after the assignment decodes the body to s
-    label = declared_charset(hdr_after)
+    # every charset label the header declares afterwards must do so (a stale second declaration misleads whichever
+    # recipient picks it); a header that already arrived with conflicting declarations is ambiguous input: not judged
+    labels = declared_charsets(hdr_after)
+    conflicting_input = ct is not None and len(declared_charsets("%s; %s" % (ct, cs))) > 1
     if not assigned:
         pass  # nothing was assigned: already reported by text_roundtrip
-    elif not label:
+    elif not labels:
         t.add("charset_clause_skipped_no_label_declared")
+    elif conflicting_input:
+        t.add("charset_clause_skipped_conflicting_declarations_in_input")
     else:
-        name = "gb18030" if label.lower() in ("gb2312", "gbk") else label
-        try:
-            codecs.lookup(name)
-            known = True
-        except LookupError:
-            known = False
-        if not known:
-            t.add("charset_clause_skipped_unknown_label_left_declared")
-        else:
+        for label in labels:
+            name = "gb18030" if label.lower() in ("gb2312", "gbk") else label
+            try:
+                codecs.lookup(name)
+            except LookupError:
+                t.add("charset_clause_skipped_unknown_label_left_declared")
+                continue
             try:
                 dec = body.decode(name, "surrogateescape")
             except KeyboardInterrupt:
@@ -280,11 +310,12 @@ def one(case, t: Tally, sample=False, verbose=False):
             else:
                 feats = feats or features(s, ct, cs, ce, body)
                 t.bad("charset_updated_when_needed", feats, case, show(s),
-                      {"declared": label, "body": m.raw_content, "body_decoded_with_declared": show(dec)})
+                      {"declared": labels, "failing": label, "content_type_after": hdr_after, "body": m.raw_content,
+                       "body_decoded_with_declared": show(dec)})
             if verbose:
                 print("  body decoded with declared charset %r: %s" % (label, show(dec)))
     t.outcome([hdr_after, err is None and got == s])
-    nontrivial = (not s.isascii()) or cs in ("utf-16", "utf-32")
+    nontrivial = (not s.isascii()) or any(v in ("utf-16", "utf-32") for _, v in charset_params(cs))
     t.case({"text": show(s), "content_type": ct, "charset": cs, "ce": ce, "kind": kind} if sample else None,
            nontrivial=nontrivial, key="\x1f".join([show(s), str(ct), str(cs), str(ce), kind]))
 
@@ -306,7 +337,7 @@ def run(ctx):
         "max_tokens": maxtok,
         "tokens": [n for _, n in TOKENS],
         "content_types": [c for c, _ in CTYPES],
-        "charset_parameters": CHARSETS,
+        "content_type_parameters": PARAMS,
         "message_kind_content_encoding_max_tokens": variants,
     }
     cases = list(gen_cases(maxtok, variants))
